@@ -396,5 +396,897 @@ theorem stepBody_logs_addRow (m : Model) (p : Params) (s : St) :
   ⟨_, rfl⟩
 
 
+/-! ## Stage 2 — one-step lemmas -/
+
+/-- overwrite the five PERT fields of `l` by those of `q` -/
+def setP (q : Live) (l : Live) : Live :=
+  { l with est := q.est, eft := q.eft, lst := q.lst, lft := q.lft, cpl := q.cpl }
+
+/-- overwrite the task states -/
+def setT (ts : Nat → TS) (l : Live) : Live := { l with tstate := ts }
+
+theorem foldl_comm {α β : Type} (g : β → α → β) (h : β → β)
+    (hc : ∀ b x, g (h b) x = h (g b x)) (xs : List α) (b : β) :
+    xs.foldl g (h b) = h (xs.foldl g b) := by
+  induction xs generalizing b with
+  | nil => rfl
+  | cons x xs ih => rw [List.foldl_cons, List.foldl_cons, hc, ih]
+
+/-- the same with an invariant of the fold -/
+theorem foldl_comm_inv {α β : Type} (g : β → α → β) (h : β → β) (P : β → Prop)
+    (hP : ∀ b x, P b → P (g b x))
+    (hc : ∀ b x, P b → g (h b) x = h (g b x)) (xs : List α) (b : β) (hb : P b) :
+    xs.foldl g (h b) = h (xs.foldl g b) := by
+  induction xs generalizing b with
+  | nil => rfl
+  | cons x xs ih => rw [List.foldl_cons, List.foldl_cons, hc b x hb, ih _ (hP b x hb)]
+
+/-! ### the update block does not read the PERT fields -/
+
+section blindP
+variable (m : Model) (q : Live)
+
+theorem absenceSet_setP (time : Nat) (wk : Bool) (l : Live) :
+    absenceSet m time wk (setP q l) = setP q (absenceSet m time wk l) := rfl
+theorem compCheck_setP (l : Live) : compCheck m (setP q l) = setP q (compCheck m l) := rfl
+theorem chkReady_setP (l : Live) : chkReady m (setP q l) = setP q (chkReady m l) := rfl
+theorem perform_setP (wk af : Bool) (l : Live) :
+    perform m wk af (setP q l) = setP q (perform m wk af l) := rfl
+
+theorem releaseW_setP (t : Nat) (l : Live) (w : Nat) :
+    releaseW t (setP q l) w = setP q (releaseW t l w) := by
+  unfold releaseW
+  rw [apply_ite (setP q)]; rfl
+
+theorem releaseF_setP (t : Nat) (l : Live) (w : Nat) :
+    releaseF t (setP q l) w = setP q (releaseF t l w) := by
+  unfold releaseF
+  rw [apply_ite (setP q)]; rfl
+
+theorem foldl_releaseW_setP (t : Nat) (ws : List Nat) (l : Live) :
+    ws.foldl (releaseW t) (setP q l) = setP q (ws.foldl (releaseW t) l) :=
+  foldl_comm (releaseW t) (setP q) (fun b x => releaseW_setP q t b x) ws l
+
+theorem foldl_releaseF_setP (t : Nat) (ws : List Nat) (l : Live) :
+    ws.foldl (releaseF t) (setP q l) = setP q (ws.foldl (releaseF t) l) :=
+  foldl_comm (releaseF t) (setP q) (fun b x => releaseF_setP q t b x) ws l
+
+/-- `finishOne` in three pieces -/
+def fin1 (t : Nat) (l : Live) : Live :=
+  { l with tstate := upd l.tstate t .finished, rem := upd l.rem t 0 }
+def fin2 (t : Nat) (l : Live) : Live :=
+  { (l.allocW t).foldl (releaseW t) l with allocW := upd ((l.allocW t).foldl (releaseW t) l).allocW t [] }
+def fin3 (m : Model) (t : Nat) (l : Live) : Live :=
+  if (m.task t).needFac then
+    { (l.allocF t).foldl (releaseF t) l with allocF := upd ((l.allocF t).foldl (releaseF t) l).allocF t [] }
+  else l
+
+theorem finishOne_pieces (l : Live) (t : Nat) : finishOne m l t = fin3 m t (fin2 t (fin1 t l)) := rfl
+
+theorem fin2_setP (t : Nat) (l : Live) : fin2 t (setP q l) = setP q (fin2 t l) := by
+  unfold fin2
+  rw [foldl_releaseW_setP]; rfl
+
+theorem fin3_setP (t : Nat) (l : Live) : fin3 m t (setP q l) = setP q (fin3 m t l) := by
+  unfold fin3
+  rw [foldl_releaseF_setP, apply_ite (setP q)]; rfl
+
+theorem finishOne_setP (l : Live) (t : Nat) : finishOne m (setP q l) t = setP q (finishOne m l t) := by
+  rw [finishOne_pieces, finishOne_pieces, ← fin3_setP, ← fin2_setP]; rfl
+
+theorem finishPass_setP (order : List Nat) (l : Live) :
+    finishPass m order (setP q l) = setP q (finishPass m order l) := by
+  unfold finishPass
+  apply foldl_comm
+  intro b x
+  show (if finishCand (setP q b) x && finishGate m (setP q b).tstate x then finishOne m (setP q b) x
+    else setP q b) = setP q (if finishCand b x && finishGate m b.tstate x then finishOne m b x else b)
+  rw [apply_ite (setP q), finishOne_setP]; rfl
+
+theorem finishClosure_setP (order : List Nat) (fuel : Nat) (l : Live) :
+    finishClosure m order fuel (setP q l) = setP q (finishClosure m order fuel l) := by
+  induction fuel generalizing l with
+  | zero => rfl
+  | succ n ih =>
+    simp only [finishClosure]
+    rw [finishPass_setP, apply_ite (setP q), ← ih]; rfl
+
+theorem chkFinished_setP (l : Live) : chkFinished m (setP q l) = setP q (chkFinished m l) := by
+  unfold chkFinished chkFinishedOrd
+  simp only
+  rw [finishClosure_setP]; rfl
+
+theorem removeOne_setP (l : Live) (c : Nat) : removeOne (setP q l) c = setP q (removeOne l c) := by
+  unfold removeOne
+  show (match l.placed c with
+    | Option.none => setP q l
+    | some p => _) = _
+  cases l.placed c <;> rfl
+
+theorem chkRemove_setP (l : Live) : chkRemove m (setP q l) = setP q (chkRemove m l) := by
+  unfold chkRemove chkRemoveOrd
+  simp only
+  have : (List.range m.nC).filter (removeCand m (setP q l)) = (List.range m.nC).filter (removeCand m l) := rfl
+  rw [this, foldl_comm removeOne (setP q) (fun b x => removeOne_setP q b x)]; rfl
+
+/-- everything in `__update` before the PERT recomputation -/
+def upd0 (m : Model) (l : Live) : Live :=
+  compCheck m (chkReady m (chkRemove m (compCheck m (chkFinished m l))))
+
+theorem update_eq (time : Nat) (l : Live) : update m time l = pert m time (upd0 m l) := rfl
+
+theorem upd0_setP (l : Live) : upd0 m (setP q l) = setP q (upd0 m l) := by
+  unfold upd0
+  rw [chkFinished_setP, compCheck_setP, chkRemove_setP, chkReady_setP, compCheck_setP]
+
+end blindP
+
+/-! ### the allocation pass, for a modification of the live state it cannot see -/
+
+/-- a modification `h` of live states that the allocation pass cannot see, on states satisfying
+`P` -/
+structure ABlind (m : Model) (h : Live → Live) (P : Live → Prop) : Prop where
+  giveW : ∀ l t w, giveW (h l) t w = h (giveW l t w)
+  giveF : ∀ l t f, giveF (h l) t f = h (giveF l t f)
+  moveComp : ∀ l c p, moveComp (h l) c p = h (moveComp l c p)
+  pGiveW : ∀ l t w, P l → P (PDesy.giveW l t w)
+  pGiveF : ∀ l t f, P l → P (PDesy.giveF l t f)
+  pMove : ∀ l c p, P l → P (PDesy.moveComp l c p)
+  canAdd : ∀ l t w f, P l → canAdd m (h l) t w f = canAdd m l t w f
+  isReady : ∀ l c, P l → isReady m (h l) c = isReady m l c
+  placeOk : ∀ l t c p, placeOk m (h l) t c p = placeOk m l t c p
+  sortWps : ∀ l r n ps, sortWps m (h l) r n ps = sortWps m l r n ps
+  placed : ∀ l, (h l).placed = l.placed
+  fstate : ∀ l, (h l).fstate = l.fstate
+
+/-- apply `h` to the live state of an allocation accumulator -/
+def liftA (h : Live → Live) (a : Alloc) : Alloc := { a with l := h a.l }
+
+section ablind
+variable {m : Model} {h : Live → Live} {P : Live → Prop} (B : ABlind m h P)
+include B
+
+theorem placeStep_blind (t : Nat) (l : Live) (hP : P l) :
+    placeStep m t (h l) = h (placeStep m t l) ∧ P (placeStep m t l) := by
+  unfold PDesy.placeStep
+  cases (m.task t).comp with
+  | none => exact ⟨rfl, hP⟩
+  | some c =>
+    simp only [B.isReady l c hP, B.sortWps]
+    have : placeOk m (h l) t c = placeOk m l t c := by funext p; exact B.placeOk l t c p
+    rw [this]
+    split
+    · cases List.find? (placeOk m l t c) (sortWps m l (m.task t).wpRule (m.task t).name (m.task t).wps) with
+      | none => exact ⟨rfl, hP⟩
+      | some p => exact ⟨B.moveComp l c p, B.pMove l c p hP⟩
+    · exact ⟨rfl, hP⟩
+
+theorem placeMoves_blind (t : Nat) (l : Live) (hP : P l) :
+    placeMoves m t (h l) = placeMoves m t l := by
+  unfold PDesy.placeMoves
+  cases (m.task t).comp with
+  | none => rfl
+  | some c =>
+    simp only [B.isReady l c hP, B.sortWps]
+    have : placeOk m (h l) t c = placeOk m l t c := by funext p; exact B.placeOk l t c p
+    rw [this]
+
+theorem allocWorkers_blind (t : Nat) (a : Alloc) (hP : P a.l) :
+    allocWorkers m t (liftA h a) = liftA h (allocWorkers m t a) ∧ P (allocWorkers m t a).l := by
+  unfold PDesy.allocWorkers
+  simp only
+  have key : ∀ (ws : List Nat) (acc : Alloc), P acc.l →
+      ws.foldl (fun acc w =>
+        if PDesy.canAdd m acc.l t (some w) Option.none then
+          { acc with l := PDesy.giveW acc.l t w, free := acc.free.filter (· != w) }
+        else acc) (liftA h acc) =
+      liftA h (ws.foldl (fun acc w =>
+        if PDesy.canAdd m acc.l t (some w) Option.none then
+          { acc with l := PDesy.giveW acc.l t w, free := acc.free.filter (· != w) }
+        else acc) acc) ∧
+      P (ws.foldl (fun acc w =>
+        if PDesy.canAdd m acc.l t (some w) Option.none then
+          { acc with l := PDesy.giveW acc.l t w, free := acc.free.filter (· != w) }
+        else acc) acc).l := by
+    intro ws
+    induction ws with
+    | nil => intro acc hacc; exact ⟨rfl, hacc⟩
+    | cons w ws ih =>
+      intro acc hacc
+      simp only [List.foldl_cons]
+      have e : (if PDesy.canAdd m (liftA h acc).l t (some w) Option.none = true then
+            { liftA h acc with l := PDesy.giveW (liftA h acc).l t w,
+                               free := (liftA h acc).free.filter (· != w) }
+          else liftA h acc) =
+          liftA h (if PDesy.canAdd m acc.l t (some w) Option.none = true then
+            { acc with l := PDesy.giveW acc.l t w, free := acc.free.filter (· != w) } else acc) := by
+        show (if PDesy.canAdd m (h acc.l) t (some w) Option.none = true then _ else _) = _
+        rw [B.canAdd acc.l t _ _ hacc, apply_ite (liftA h)]
+        show (if _ then ({ l := PDesy.giveW (h acc.l) t w, free := _, moved := _ } : Alloc) else _) = _
+        rw [B.giveW]; rfl
+      rw [e]
+      apply ih
+      split
+      · exact B.pGiveW _ _ _ hacc
+      · exact hacc
+  exact key _ { a with free := sortWorkers m (m.task t).wRule (m.task t).name Option.none a.free } hP
+
+/-- the step of the facility loop of `allocPairs` -/
+def pairStep (m : Model) (t p : Nat) (acc : Alloc) (f : Nat) : Alloc :=
+  let name := (m.task t).name
+  let ws := acc.free.filter fun w =>
+    hasSkill (m.worker w).skills name && teamTargets m w t && PDesy.canAdd m acc.l t (some w) (some f)
+  match sortWorkers m (m.task t).wRule name (some p) ws with
+  | [] => acc
+  | w :: _ => { acc with l := PDesy.giveF (PDesy.giveW acc.l t w) t f, free := acc.free.filter (· != w) }
+
+theorem pairStep_blind (t p : Nat) (acc : Alloc) (f : Nat) (hP : P acc.l) :
+    pairStep m t p (liftA h acc) f = liftA h (pairStep m t p acc f) ∧ P (pairStep m t p acc f).l := by
+  unfold pairStep
+  simp only
+  have e : (liftA h acc).free = acc.free := rfl
+  have e2 : (liftA h acc).l = h acc.l := rfl
+  rw [e, e2]
+  simp only [B.canAdd acc.l t _ _ hP]
+  cases sortWorkers m (m.task t).wRule (m.task t).name (some p)
+      (acc.free.filter fun w => hasSkill (m.worker w).skills (m.task t).name && teamTargets m w t &&
+        PDesy.canAdd m acc.l t (some w) (some f)) with
+  | nil => exact ⟨rfl, hP⟩
+  | cons w ws =>
+    refine ⟨?_, B.pGiveF _ _ _ (B.pGiveW _ _ _ hP)⟩
+    show ({ l := PDesy.giveF (PDesy.giveW (h acc.l) t w) t f, free := _, moved := _ } : Alloc) = _
+    rw [B.giveW, B.giveF]; rfl
+
+theorem foldl_pairStep_blind (t p : Nat) (fs : List Nat) (acc : Alloc) (hP : P acc.l) :
+    fs.foldl (pairStep m t p) (liftA h acc) = liftA h (fs.foldl (pairStep m t p) acc) ∧
+      P (fs.foldl (pairStep m t p) acc).l := by
+  induction fs generalizing acc with
+  | nil => exact ⟨rfl, hP⟩
+  | cons f fs ih =>
+    simp only [List.foldl_cons]
+    obtain ⟨e, hp⟩ := pairStep_blind B t p acc f hP
+    rw [e]
+    exact ih _ hp
+
+omit B in
+theorem allocPairs_eq (m : Model) (t : Nat) (a : Alloc) :
+    allocPairs m t a =
+      match (m.task t).comp with
+      | Option.none => a
+      | some c =>
+        match a.l.placed c with
+        | Option.none => a
+        | some p =>
+          ((sortFacs m (m.task t).fRule (m.task t).name
+            ((m.wp p).facs.filter fun f => a.l.fstate f == .free)).filter
+              fun f => hasSkill (m.fac f).skills (m.task t).name && wpTargets m f t).foldl
+            (pairStep m t p) a := rfl
+
+omit B in
+theorem liftA_l (h : Live → Live) (a : Alloc) : (liftA h a).l = h a.l := rfl
+
+theorem allocPairs_blind (t : Nat) (a : Alloc) (hP : P a.l) :
+    allocPairs m t (liftA h a) = liftA h (allocPairs m t a) ∧ P (allocPairs m t a).l := by
+  rw [allocPairs_eq, allocPairs_eq]
+  cases (m.task t).comp with
+  | none => exact ⟨rfl, hP⟩
+  | some c =>
+    simp only [liftA_l, B.placed, B.fstate]
+    cases a.l.placed c with
+    | none => exact ⟨rfl, hP⟩
+    | some p => exact foldl_pairStep_blind B t p _ a hP
+
+/-- the accumulator of `allocTask` after the placement step -/
+def afterPlace (m : Model) (acc : Alloc) (t : Nat) : Alloc :=
+  if (match (m.task t).comp with
+      | some c => acc.moved.contains c
+      | Option.none => false) then acc
+  else { acc with l := placeStep m t acc.l,
+                  moved := match placeMoves m t acc.l with
+                    | some c => acc.moved ++ [c]
+                    | Option.none => acc.moved }
+
+omit B in
+theorem allocTask_eq (m : Model) (acc : Alloc) (t : Nat) :
+    allocTask m acc t =
+      if (m.task t).isAuto then afterPlace m acc t
+      else if (m.task t).needFac then allocPairs m t (afterPlace m acc t)
+      else allocWorkers m t (afterPlace m acc t) := rfl
+
+theorem afterPlace_blind (acc : Alloc) (t : Nat) (hP : P acc.l) :
+    afterPlace m (liftA h acc) t = liftA h (afterPlace m acc t) ∧ P (afterPlace m acc t).l := by
+  unfold afterPlace
+  have e0 : (liftA h acc).moved = acc.moved := rfl
+  rw [e0, liftA_l, (placeStep_blind B t acc.l hP).1, placeMoves_blind B t acc.l hP]
+  generalize (match (m.task t).comp with
+    | some c => acc.moved.contains c
+    | Option.none => false) = b
+  cases b
+  · exact ⟨rfl, (placeStep_blind B t acc.l hP).2⟩
+  · exact ⟨rfl, hP⟩
+
+theorem allocTask_blind (acc : Alloc) (t : Nat) (hP : P acc.l) :
+    allocTask m (liftA h acc) t = liftA h (allocTask m acc t) ∧ P (allocTask m acc t).l := by
+  rw [allocTask_eq, allocTask_eq]
+  obtain ⟨e, hp⟩ := afterPlace_blind B acc t hP
+  rw [e]
+  split
+  · exact ⟨rfl, hp⟩
+  · split
+    · exact allocPairs_blind B t _ hp
+    · exact allocWorkers_blind B t _ hp
+
+theorem foldl_allocTask_blind (ts : List Nat) (acc : Alloc) (hP : P acc.l) :
+    ts.foldl (allocTask m) (liftA h acc) = liftA h (ts.foldl (allocTask m) acc) := by
+  induction ts generalizing acc with
+  | nil => rfl
+  | cons t ts ih =>
+    simp only [List.foldl_cons]
+    obtain ⟨e, hp⟩ := allocTask_blind B acc t hP
+    rw [e]
+    exact ih _ hp
+
+omit B in
+theorem allocate_eq (m : Model) (lg : Logs) (rule : TaskRule) (l : Live) :
+    allocate m lg rule l =
+      ((sortTasks m l lg rule ((List.range m.nT).filter fun t =>
+          l.tstate t == .ready || l.tstate t == .working)).foldl (allocTask m)
+        { l := l, free := (List.range m.nW).filter fun w => l.wstate w == .free }).l := by
+  unfold allocate
+  simp only [tabN_eq]
+
+/-- **the allocation pass commutes with a modification it cannot see**, as soon as the
+candidates, their order and the free workers are the same -/
+theorem allocate_blind (lg lg' : Logs) (rule : TaskRule) (l : Live) (hP : P l)
+    (hc : ((List.range m.nT).filter fun t => (h l).tstate t == .ready || (h l).tstate t == .working) =
+      (List.range m.nT).filter fun t => l.tstate t == .ready || l.tstate t == .working)
+    (hs : sortTasks m (h l) lg' rule ((List.range m.nT).filter fun t =>
+        l.tstate t == .ready || l.tstate t == .working) =
+      sortTasks m l lg rule ((List.range m.nT).filter fun t =>
+        l.tstate t == .ready || l.tstate t == .working))
+    (hw : (h l).wstate = l.wstate) :
+    allocate m lg' rule (h l) = h (allocate m lg rule l) := by
+  rw [allocate_eq, allocate_eq, hc, hs, hw]
+  have := foldl_allocTask_blind B (sortTasks m l lg rule ((List.range m.nT).filter fun t =>
+        l.tstate t == .ready || l.tstate t == .working))
+      { l := l, free := (List.range m.nW).filter fun w => l.wstate w == .free } hP
+  show (List.foldl (allocTask m) (liftA h { l := l, free := _ }) _).l = _
+  rw [this]; rfl
+
+end ablind
+
+/-! ### the two modifications -/
+
+/-- `moveComp` in three pieces -/
+def mv1 (l : Live) (c : Nat) : Live :=
+  match l.placed c with
+  | Option.none => l
+  | some q => { l with wpComps := upd l.wpComps q ((l.wpComps q).erase c) }
+def mv2 (l : Live) (c p : Nat) : Live := { l with placed := upd l.placed c (some p) }
+def mv3 (l : Live) (c p : Nat) : Live :=
+  if (l.wpComps p).contains c then l
+  else { l with wpComps := upd l.wpComps p (l.wpComps p ++ [c]) }
+
+theorem moveComp_pieces (l : Live) (c p : Nat) : moveComp l c p = mv3 (mv2 (mv1 l c) c p) c p := rfl
+
+/-- a modification that overwrites fields `moveComp` neither reads nor writes -/
+theorem moveComp_comm (h : Live → Live)
+    (h1 : ∀ l c, mv1 (h l) c = h (mv1 l c)) (h2 : ∀ l c p, mv2 (h l) c p = h (mv2 l c p))
+    (h3 : ∀ l c p, mv3 (h l) c p = h (mv3 l c p)) (l : Live) (c p : Nat) :
+    moveComp (h l) c p = h (moveComp l c p) := by
+  rw [moveComp_pieces, moveComp_pieces, h1, h2, h3]
+
+theorem mv1_setP (q l : Live) (c : Nat) : mv1 (setP q l) c = setP q (mv1 l c) := by
+  unfold mv1
+  show (match l.placed c with
+    | Option.none => setP q l
+    | some p => _) = _
+  cases l.placed c <;> rfl
+
+theorem mv3_setP (q l : Live) (c p : Nat) : mv3 (setP q l) c p = setP q (mv3 l c p) := by
+  unfold mv3
+  rw [apply_ite (setP q)]; rfl
+
+theorem mv1_setT (ts : Nat → TS) (l : Live) (c : Nat) : mv1 (setT ts l) c = setT ts (mv1 l c) := by
+  unfold mv1
+  show (match l.placed c with
+    | Option.none => setT ts l
+    | some p => _) = _
+  cases l.placed c <;> rfl
+
+theorem mv3_setT (ts : Nat → TS) (l : Live) (c p : Nat) : mv3 (setT ts l) c p = setT ts (mv3 l c p) := by
+  unfold mv3
+  rw [apply_ite (setT ts)]; rfl
+
+theorem moveComp_tstate (l : Live) (c p : Nat) : (moveComp l c p).tstate = l.tstate :=
+  congrArg (·.1) (Lifecycle.moveComp_tc l c p)
+
+theorem ablind_setP (m : Model) (q : Live) : ABlind m (setP q) (fun _ => True) where
+  giveW := fun _ _ _ => rfl
+  giveF := fun _ _ _ => rfl
+  moveComp := moveComp_comm (setP q) (mv1_setP q) (fun _ _ _ => rfl) (mv3_setP q)
+  pGiveW := fun _ _ _ _ => trivial
+  pGiveF := fun _ _ _ _ => trivial
+  pMove := fun _ _ _ _ => trivial
+  canAdd := fun _ _ _ _ _ => rfl
+  isReady := fun _ _ _ => rfl
+  placeOk := fun _ _ _ _ => rfl
+  sortWps := fun _ _ _ _ => rfl
+  placed := fun _ => rfl
+  fstate := fun _ => rfl
+
+/-- component-free automatic task: the only kind of task that `check_state(WORKING)` starts at a
+project absence step (with the flag off nothing else happens to it there) -/
+def freeAuto (m : Model) (t : Nat) : Bool := (m.task t).isAuto && (m.task t).comp.isNone
+
+/-- run A is *ahead* of run B: same task states, except that some component-free automatic
+tasks that are READY in B are already WORKING in A -/
+def Ahead (m : Model) (tsA tsB : Nat → TS) : Prop :=
+  ∀ t, tsA t = tsB t ∨ (t < m.nT ∧ freeAuto m t = true ∧ tsA t = .working ∧ tsB t = .ready)
+
+/-- no component lists an automatic task -/
+def CompNoAuto (m : Model) : Prop := ∀ c, ∀ t ∈ (m.comp c).tasks, (m.task t).isAuto = false
+
+theorem Ahead.refl (m : Model) (ts : Nat → TS) : Ahead m ts ts := fun _ => Or.inl rfl
+
+theorem Ahead.none {m : Model} {a b : Nat → TS} (h : Ahead m a b) (t : Nat) :
+    (a t == .none) = (b t == .none) := by
+  rcases h t with e | ⟨_, _, e1, e2⟩
+  · rw [e]
+  · rw [e1, e2]; rfl
+
+theorem Ahead.finished {m : Model} {a b : Nat → TS} (h : Ahead m a b) (t : Nat) :
+    (a t == .finished) = (b t == .finished) := by
+  rcases h t with e | ⟨_, _, e1, e2⟩
+  · rw [e]
+  · rw [e1, e2]; rfl
+
+theorem Ahead.active {m : Model} {a b : Nat → TS} (h : Ahead m a b) (t : Nat) :
+    (a t == .ready || a t == .working) = (b t == .ready || b t == .working) := by
+  rcases h t with e | ⟨_, _, e1, e2⟩
+  · rw [e]
+  · rw [e1, e2]; rfl
+
+theorem Ahead.of_not_auto {m : Model} {a b : Nat → TS} (h : Ahead m a b) (t : Nat)
+    (ht : (m.task t).isAuto = false) : a t = b t := by
+  rcases h t with e | ⟨_, e0, _, _⟩
+  · exact e
+  · simp [freeAuto, ht] at e0
+
+theorem canAdd_setT (m : Model) (ts : Nat → TS) (l : Live) (t : Nat) (w f : Option Nat)
+    (h : Ahead m ts l.tstate) : canAdd m (setT ts l) t w f = canAdd m l t w f := by
+  unfold canAdd
+  show (if (ts t == .none || ts t == .finished) = true then false else _) = _
+  rw [h.none t, h.finished t]
+  rfl
+
+theorem any_congr_mem {α : Type} (f g : α → Bool) (xs : List α) (h : ∀ x ∈ xs, f x = g x) :
+    xs.any f = xs.any g := by
+  induction xs with
+  | nil => rfl
+  | cons x xs ih =>
+    simp only [List.any_cons]
+    rw [h x (List.mem_cons_self ..), ih (fun y hy => h y (List.mem_cons_of_mem _ hy))]
+
+/-- `BaseComponent.is_ready` as a function of the task states and the "some task is working" flag -/
+def isReadyOf (ts : List TS) (anyWorking : Bool) : Bool :=
+  if ts.all (· == .finished) then false
+  else !(ts.all (· == .none)) && !anyWorking && ts.any (· == .ready)
+
+theorem isReady_eq (m : Model) (l : Live) (c : Nat) :
+    isReady m l c = isReadyOf ((m.comp c).tasks.map l.tstate)
+      ((m.comp c).tasks.any fun t => l.tstate t == .working || decide ((l.allocW t).length > 0)) := rfl
+
+theorem isReady_setT (m : Model) (hc : CompNoAuto m) (ts : Nat → TS) (l : Live) (c : Nat)
+    (h : Ahead m ts l.tstate) : isReady m (setT ts l) c = isReady m l c := by
+  have e1 : (m.comp c).tasks.map ts = (m.comp c).tasks.map l.tstate :=
+    List.map_congr_left (fun t ht => h.of_not_auto t (hc c t ht))
+  have e2 : ((m.comp c).tasks.any fun t => ts t == .working || decide ((l.allocW t).length > 0)) =
+      ((m.comp c).tasks.any fun t => l.tstate t == .working || decide ((l.allocW t).length > 0)) := by
+    apply any_congr_mem
+    intro t ht
+    rw [h.of_not_auto t (hc c t ht)]
+  rw [isReady_eq, isReady_eq]
+  show isReadyOf ((m.comp c).tasks.map ts)
+    ((m.comp c).tasks.any fun t => ts t == .working || decide ((l.allocW t).length > 0)) = _
+  rw [e1, e2]
+
+theorem ablind_setT (m : Model) (hc : CompNoAuto m) (ts : Nat → TS) :
+    ABlind m (setT ts) (fun l => Ahead m ts l.tstate) where
+  giveW := fun _ _ _ => rfl
+  giveF := fun _ _ _ => rfl
+  moveComp := moveComp_comm (setT ts) (mv1_setT ts) (fun _ _ _ => rfl) (mv3_setT ts)
+  pGiveW := fun _ _ _ h => h
+  pGiveF := fun _ _ _ h => h
+  pMove := fun l c p h => by rw [moveComp_tstate]; exact h
+  canAdd := fun l t w f h => canAdd_setT m ts l t w f h
+  isReady := fun l c h => isReady_setT m hc ts l c h
+  placeOk := fun _ _ _ _ => rfl
+  sortWps := fun _ _ _ _ => rfl
+  placed := fun _ => rfl
+  fstate := fun _ => rfl
+
+/-- **`allocate` on the state of run A** (task states ahead, other PERT values, other logs) does
+what it does on the state of run B, as soon as the two comparison functions agree below `m.nT` -/
+theorem allocate_over (m : Model) (hc : CompNoAuto m) (lg lg' : Logs) (rule : TaskRule) (q : Live)
+    (ts : Nat → TS) (l : Live) (ha : Ahead m ts l.tstate)
+    (hle : ∀ a b, a < m.nT → b < m.nT →
+      taskLe m (setP q (setT ts l)) lg' rule a b = taskLe m l lg rule a b) :
+    allocate m lg' rule (setP q (setT ts l)) = setP q (setT ts (allocate m lg rule l)) := by
+  have hmem : ∀ a ∈ (List.range m.nT).filter (fun t => ts t == .ready || ts t == .working), a < m.nT :=
+    fun a h => List.mem_range.mp (List.mem_filter.mp h).1
+  rw [allocate_blind (ablind_setP m q) lg lg' rule (setT ts l) trivial rfl
+    (sortBy_congr _ _ _ (fun a ha' b hb' => hle a b (hmem a ha') (hmem b hb'))) rfl]
+  congr 1
+  refine allocate_blind (ablind_setT m hc ts) lg lg rule l ha ?_ rfl rfl
+  apply List.filter_congr
+  intro t _
+  exact ha.active t
+
+/-! ### `check_state(WORKING)` -/
+
+theorem startOne_setP (m : Model) (q l : Live) (t : Nat) :
+    startOne m (setP q l) t = setP q (startOne m l t) := by
+  rw [Alloc.startOne_eq, Alloc.startOne_eq, apply_ite (setP q), apply_ite (setP q)]; rfl
+
+theorem chkWorking_setP (m : Model) (q l : Live) :
+    chkWorking m (setP q l) = setP q (chkWorking m l) := by
+  rw [Alloc.chkWorking_eq, Alloc.chkWorking_eq]
+  have : (List.range m.nT).filter (workingTarget m (setP q l)) =
+      (List.range m.nT).filter (workingTarget m l) := rfl
+  rw [this]
+  exact foldl_comm (startOne m) (setP q) (fun b x => startOne_setP m q b x) _ l
+
+/-- starting a task that has the same state on both sides -/
+theorem startOne_setT_same (m : Model) (ts : Nat → TS) (l : Live) (x : Nat) (h : ts x = l.tstate x) :
+    startOne m (setT ts l) x =
+      setT (if l.tstate x = .ready then upd ts x .working else ts) (startOne m l x) := by
+  rw [Alloc.startOne_eq, Alloc.startOne_eq]
+  show (if ts x = .ready then _ else if ts x = .working then _ else _) = _
+  rw [h]
+  by_cases h1 : l.tstate x = .ready
+  · simp only [h1, if_true]; rfl
+  · by_cases h2 : l.tstate x = .working
+    · simp only [h2, if_true, reduceCtorEq, if_false]; rfl
+    · simp only [h1, h2, if_false]
+
+/-- starting a READY task that holds nothing only changes its state -/
+theorem startOne_empty (m : Model) (l : Live) (x : Nat) (h : l.tstate x = .ready)
+    (hW : l.allocW x = []) (hF : l.allocF x = []) :
+    startOne m l x = setT (upd l.tstate x .working) l := by
+  rw [Alloc.startOne_eq, if_pos h]
+  simp [setT, hW, hF]
+
+theorem startOne_tstate_ne (m : Model) (l : Live) (x t : Nat) (h : t ≠ x) :
+    (startOne m l x).tstate t = l.tstate t := by
+  rw [Alloc.startOne_tstate]
+  split
+  · exact upd_other _ _ _ _ h
+  · rfl
+
+/-- the side condition of `cw_sim` for one task -/
+def CwOk (tA tB : Nat → Bool) (ts : Nat → TS) (l : Live) (t : Nat) : Prop :=
+  (ts t = l.tstate t ∧ tA t = tB t) ∨
+  (ts t = .working ∧ l.tstate t = .ready ∧ tA t = false ∧ tB t = true ∧
+    l.allocW t = [] ∧ l.allocF t = [])
+
+/-- **`check_state(WORKING)`, run A against run B**: the tasks that are already WORKING in A
+and still READY in B hold nothing, are targets in B only, and starting them changes only their
+state — after the pass the two states are equal -/
+theorem cw_sim (m : Model) (tA tB : Nat → Bool) :
+    ∀ (xs : List Nat), xs.Nodup → ∀ (ts : Nat → TS) (l : Live),
+      (∀ t ∈ xs, CwOk tA tB ts l t) → (∀ t, t ∉ xs → ts t = l.tstate t) →
+      (xs.filter tA).foldl (startOne m) (setT ts l) = (xs.filter tB).foldl (startOne m) l := by
+  intro xs
+  induction xs with
+  | nil =>
+    intro _ ts l _ h
+    have : ts = l.tstate := funext fun t => h t (by simp)
+    subst this
+    rfl
+  | cons x xs ih =>
+    intro hnd ts l hin hout
+    obtain ⟨hx, hnd'⟩ := List.nodup_cons.mp hnd
+    have hne : ∀ t ∈ xs, t ≠ x := fun t ht e => hx (e ▸ ht)
+    rcases hin x (List.mem_cons_self ..) with ⟨e1, e2⟩ | ⟨e1, e2, e3, e4, e5, e6⟩
+    · cases hb : tB x
+      · -- not a target on either side
+        rw [List.filter_cons, List.filter_cons, e2, hb]
+        simp only [Bool.false_eq_true, if_false]
+        apply ih hnd' ts l (fun t ht => hin t (List.mem_cons_of_mem _ ht))
+        intro t ht
+        by_cases e : t = x
+        · rw [e]; exact e1
+        · exact hout t (by simp [e, ht])
+      · rw [List.filter_cons, List.filter_cons, e2, hb]
+        simp only [if_true, List.foldl_cons]
+        rw [startOne_setT_same m ts l x e1]
+        have hf := Alloc.startOne_frame m l x
+        apply ih hnd'
+        · intro t ht
+          have hn := hne t ht
+          have h1 : (if l.tstate x = .ready then upd ts x .working else ts) t = ts t := by
+            split
+            · exact upd_other _ _ _ _ hn
+            · rfl
+          unfold CwOk
+          rw [h1, startOne_tstate_ne m l x t hn, hf.1, hf.2.1]
+          exact hin t (List.mem_cons_of_mem _ ht)
+        · intro t ht
+          by_cases e : t = x
+          · subst e
+            rw [Alloc.startOne_tstate]
+            split
+            · simp
+            · exact e1
+          · have h1 : (if l.tstate x = .ready then upd ts x .working else ts) t = ts t := by
+              split
+              · exact upd_other _ _ _ _ e
+              · rfl
+            rw [h1, startOne_tstate_ne m l x t e]
+            exact hout t (by simp [e, ht])
+    · rw [List.filter_cons, List.filter_cons, e3, e4]
+      simp only [Bool.false_eq_true, if_false, if_true, List.foldl_cons]
+      rw [startOne_empty m l x e2 e5 e6]
+      have : setT ts l = setT ts (setT (upd l.tstate x .working) l) := rfl
+      rw [this]
+      apply ih hnd'
+      · intro t ht
+        have hn := hne t ht
+        unfold CwOk
+        show (ts t = upd l.tstate x .working t ∧ _) ∨ (_ ∧ upd l.tstate x .working t = .ready ∧ _ ∧ _ ∧
+          l.allocW t = [] ∧ l.allocF t = [])
+        rw [upd_other _ _ _ _ hn]
+        exact hin t (List.mem_cons_of_mem _ ht)
+      · intro t ht
+        show ts t = upd l.tstate x .working t
+        by_cases e : t = x
+        · subst e; rw [upd_same]; exact e1
+        · rw [upd_other _ _ _ _ e]
+          exact hout t (by simp [e, ht])
+
+theorem workingTarget_setT_same (m : Model) (ts : Nat → TS) (l : Live) (t : Nat) (h : ts t = l.tstate t) :
+    workingTarget m (setT ts l) t = workingTarget m l t := by
+  unfold workingTarget
+  show ((ts t == .ready && _) || (ts t == .ready && _ && _) || (ts t == .ready && _ && _) ||
+    (ts t == .working && _)) = _
+  rw [h]
+  rfl
+
+theorem workingTarget_ahead (m : Model) (ts : Nat → TS) (l : Live) (t : Nat) (h : ts t = .working)
+    (hW : l.allocW t = []) : workingTarget m (setT ts l) t = false := by
+  unfold workingTarget
+  show ((ts t == .ready && _) || (ts t == .ready && _ && _) || (ts t == .ready && _ && _) ||
+    (ts t == .working && decide ((l.allocW t).length > 0))) = _
+  rw [h, hW]
+  rfl
+
+theorem workingTarget_freeAuto (m : Model) (l : Live) (t : Nat) (h : l.tstate t = .ready)
+    (hf : freeAuto m t = true) : workingTarget m l t = true := by
+  unfold freeAuto at hf
+  simp only [Bool.and_eq_true] at hf
+  unfold workingTarget
+  simp [h, hf.1, hf.2]
+
+/-- **`check_state(WORKING)` on the state of run A** gives the state it gives in run B — the
+task states coincide afterwards -/
+theorem chkWorking_over (m : Model) (q : Live) (ts : Nat → TS) (l : Live) (ha : Ahead m ts l.tstate)
+    (hE : ∀ t, ts t ≠ l.tstate t → l.allocW t = [] ∧ l.allocF t = []) :
+    chkWorking m (setP q (setT ts l)) = setP q (chkWorking m l) := by
+  rw [chkWorking_setP, Alloc.chkWorking_eq, Alloc.chkWorking_eq]
+  congr 1
+  apply cw_sim m _ _ _ List.nodup_range
+  · intro t _
+    rcases ha t with e | ⟨_, hf, e1, e2⟩
+    · exact Or.inl ⟨e, workingTarget_setT_same m ts l t e⟩
+    · have hne : ts t ≠ l.tstate t := by rw [e1, e2]; intro h; cases h
+      obtain ⟨hW, hF⟩ := hE t hne
+      exact Or.inr ⟨e1, e2, workingTarget_ahead m ts l t e1 hW, workingTarget_freeAuto m l t e2 hf, hW, hF⟩
+  · intro t ht
+    rcases ha t with e | ⟨hlt, _⟩
+    · exact e
+    · exact absurd (List.mem_range.mpr hlt) ht
+
+/-! ### `allocate` gives nothing to automatic tasks -/
+
+theorem giveW_allocW_ne (l : Live) (t t' w : Nat) (h : t ≠ t') : (giveW l t' w).allocW t = l.allocW t :=
+  upd_other _ _ _ _ h
+theorem giveF_allocF_ne (l : Live) (t t' f : Nat) (h : t ≠ t') : (giveF l t' f).allocF t = l.allocF t :=
+  upd_other _ _ _ _ h
+
+/-- the two allocation lists of task `t` -/
+def holds (t : Nat) (l : Live) : List Nat × List Nat := (l.allocW t, l.allocF t)
+
+theorem placeStep_holds (m : Model) (t t' : Nat) (l : Live) : holds t (placeStep m t' l) = holds t l := by
+  have := Perform.placeStep_keepM (m := m) t' l
+  unfold Perform.keepM at this
+  unfold holds
+  rw [show (placeStep m t' l).allocW = l.allocW from congrArg (·.1) this,
+    show (placeStep m t' l).allocF = l.allocF from congrArg (·.2) this]
+
+theorem allocWorkers_holds (m : Model) (t t' : Nat) (a : Alloc) (h : t ≠ t') :
+    holds t (allocWorkers m t' a).l = holds t a.l := by
+  unfold allocWorkers
+  simp only
+  refine Lifecycle.foldl_proj_eq _ (fun x : Alloc => holds t x.l) ?_ _ _ _ rfl
+  intro b w
+  split
+  · show ((giveW b.l t' w).allocW t, (giveW b.l t' w).allocF t) = _
+    rw [giveW_allocW_ne _ _ _ _ h]; rfl
+  · rfl
+
+theorem pairStep_holds (m : Model) (t t' p : Nat) (acc : Alloc) (f : Nat) (h : t ≠ t') :
+    holds t (pairStep m t' p acc f).l = holds t acc.l := by
+  unfold pairStep
+  simp only
+  split
+  · rfl
+  · show ((giveF (giveW acc.l t' _) t' f).allocW t, (giveF (giveW acc.l t' _) t' f).allocF t) = _
+    rw [giveF_allocF_ne _ _ _ _ h]
+    show ((giveW acc.l t' _).allocW t, _) = _
+    rw [giveW_allocW_ne _ _ _ _ h]; rfl
+
+theorem allocPairs_holds (m : Model) (t t' : Nat) (a : Alloc) (h : t ≠ t') :
+    holds t (allocPairs m t' a).l = holds t a.l := by
+  rw [allocPairs_eq]
+  split
+  · rfl
+  · split
+    · rfl
+    · exact Lifecycle.foldl_proj _ (fun x : Alloc => holds t x.l)
+        (fun b f => pairStep_holds m t t' _ b f h) _ _
+
+theorem afterPlace_holds (m : Model) (t t' : Nat) (acc : Alloc) :
+    holds t (afterPlace m acc t').l = holds t acc.l := by
+  unfold afterPlace
+  split
+  · split
+    · rfl
+    · exact placeStep_holds m t t' acc.l
+  · simp only [Bool.false_eq_true, if_false]; exact placeStep_holds m t t' acc.l
+
+theorem allocTask_holds (m : Model) (t t' : Nat) (acc : Alloc) (h : (m.task t).isAuto = true) :
+    holds t (allocTask m acc t').l = holds t acc.l := by
+  rw [allocTask_eq]
+  by_cases e : t = t'
+  · subst e
+    rw [if_pos h]; exact afterPlace_holds m t t acc
+  · split
+    · exact afterPlace_holds m t t' acc
+    · split
+      · rw [allocPairs_holds m t t' _ e]; exact afterPlace_holds m t t' acc
+      · rw [allocWorkers_holds m t t' _ e]; exact afterPlace_holds m t t' acc
+
+/-- an automatic task is given nothing -/
+theorem allocate_auto_holds (m : Model) (lg : Logs) (rule : TaskRule) (l : Live) (t : Nat)
+    (h : (m.task t).isAuto = true) :
+    (allocate m lg rule l).allocW t = l.allocW t ∧ (allocate m lg rule l).allocF t = l.allocF t := by
+  rw [allocate_eq]
+  have := Lifecycle.foldl_proj (allocTask m) (fun x : Alloc => holds t x.l)
+    (fun b t' => allocTask_holds m t t' b h)
+    (sortTasks m l lg rule ((List.range m.nT).filter fun t => l.tstate t == .ready || l.tstate t == .working))
+    { l := l, free := (List.range m.nW).filter fun w => l.wstate w == .free }
+  exact ⟨congrArg (·.1) this, congrArg (·.2) this⟩
+
+/-! ### the relation between the live states of the two runs -/
+
+theorem live_ext (a b : Live) (h1 : a.tstate = b.tstate) (h2 : a.rem = b.rem) (h3 : a.est = b.est)
+    (h4 : a.eft = b.eft) (h5 : a.lst = b.lst) (h6 : a.lft = b.lft) (h7 : a.cpl = b.cpl)
+    (h8 : a.allocW = b.allocW) (h9 : a.allocF = b.allocF) (h10 : a.wstate = b.wstate)
+    (h11 : a.wasg = b.wasg) (h12 : a.fstate = b.fstate) (h13 : a.fasg = b.fasg)
+    (h14 : a.cstate = b.cstate) (h15 : a.placed = b.placed) (h16 : a.wpComps = b.wpComps) : a = b := by
+  cases a; cases b; simp_all
+
+/-- The live state `a` of run A against the live state `b` of run B (both at the `updated`
+boundary): task states ahead; remaining work, allocations, assignments, components and
+placement equal; resource states equal outside the index ranges (inside, the next `absenceSet`
+recomputes them).  Nothing is said about the PERT fields. -/
+structure LRel (m : Model) (a b : Live) : Prop where
+  ts : Ahead m a.tstate b.tstate
+  rem : a.rem = b.rem
+  allocW : a.allocW = b.allocW
+  allocF : a.allocF = b.allocF
+  wasg : a.wasg = b.wasg
+  fasg : a.fasg = b.fasg
+  cstate : a.cstate = b.cstate
+  placed : a.placed = b.placed
+  wpComps : a.wpComps = b.wpComps
+  wout : ∀ w, ¬ w < m.nW → a.wstate w = b.wstate w
+  fout : ∀ f, ¬ f < m.nF → a.fstate f = b.fstate f
+
+/-- no worker and no facility has an absence list of its own -/
+def NoIndAbs (m : Model) : Prop :=
+  (∀ w, w < m.nW → (m.worker w).absence = []) ∧ (∀ f, f < m.nF → (m.fac f).absence = [])
+
+theorem absenceSet_rel (m : Model) (hab : NoIndAbs m) (a b : Live) (h : LRel m a b) (τA τB : Nat) :
+    absenceSet m τA true a = setP a (setT a.tstate (absenceSet m τB true b)) := by
+  apply live_ext
+  · rfl
+  · exact h.rem
+  · rfl
+  · rfl
+  · rfl
+  · rfl
+  · rfl
+  · exact h.allocW
+  · exact h.allocF
+  · funext w
+    show (absenceSet m τA true a).wstate w = (absenceSet m τB true b).wstate w
+    simp only [absenceSet, tabN_eq, if_true]
+    split
+    · rename_i hw
+      rw [hab.1 w hw, h.wasg]; rfl
+    · rename_i hw
+      exact h.wout w hw
+  · exact h.wasg
+  · funext f
+    show (absenceSet m τA true a).fstate f = (absenceSet m τB true b).fstate f
+    simp only [absenceSet, tabN_eq, if_true]
+    split
+    · rename_i hf
+      rw [hab.2 f hf, h.fasg]; rfl
+    · rename_i hf
+      exact h.fout f hf
+  · exact h.fasg
+  · exact h.cstate
+  · exact h.placed
+  · exact h.wpComps
+
+/-- the live part of one loop iteration -/
+def stepLive (m : Model) (lg : Logs) (rule : TaskRule) (af : Bool) (τ : Nat) (wk : Bool) (l : Live) : Live :=
+  perform m wk af (compCheck m (chkWorking m
+    (if wk then allocate m lg rule (absenceSet m τ wk l) else absenceSet m τ wk l)))
+
+theorem stepBody_live_eq (m : Model) (p : Params) (s : St) :
+    (stepBody m p s).live =
+      stepLive m s.logs p.rule p.autoFlag s.time (!(p.absence.contains s.time)) s.live := rfl
+
+theorem allocate_tstate (m : Model) (lg : Logs) (rule : TaskRule) (l : Live) :
+    (allocate m lg rule l).tstate = l.tstate :=
+  congrArg (·.1) (Lifecycle.allocate_tc m lg rule l)
+
+/-- **a working step, live states**: from related states (B's resource holders all WORKING),
+the iteration of run A gives the state the iteration of run B gives, with A's PERT fields
+(which an iteration does not touch) -/
+theorem stepLive_working (m : Model) (hab : NoIndAbs m) (hc : CompNoAuto m) (rule : TaskRule) (af : Bool)
+    (a b : Live) (lgA lgB : Logs) (τA τB : Nat) (h : LRel m a b) (hw : HoldWorking b)
+    (hle : ∀ x y, x < m.nT → y < m.nT → taskLe m (setP a b) lgA rule x y = taskLe m b lgB rule x y) :
+    stepLive m lgA rule af τA true a = setP a (stepLive m lgB rule af τB true b) := by
+  unfold stepLive
+  simp only [if_true]
+  rw [absenceSet_rel m hab a b h τA τB,
+    allocate_over m hc lgB lgA rule a a.tstate (absenceSet m τB true b) h.ts hle]
+  rw [chkWorking_over m a a.tstate _ (by rw [allocate_tstate]; exact h.ts)]
+  · rfl
+  · intro t hne
+    rw [allocate_tstate] at hne
+    rcases h.ts t with e | ⟨_, hf, _, e2⟩
+    · exact absurd e hne
+    · have hauto : (m.task t).isAuto = true := by
+        unfold freeAuto at hf; simp only [Bool.and_eq_true] at hf; exact hf.1
+      obtain ⟨e3, e4⟩ := allocate_auto_holds m lgB rule (absenceSet m τB true b) t hauto
+      rw [e3, e4]
+      show b.allocW t = [] ∧ b.allocF t = []
+      have hb : b.tstate t = .ready := e2
+      constructor
+      · apply Classical.byContradiction
+        intro hn
+        have := hw t (Or.inl hn)
+        rw [hb] at this; cases this
+      · apply Classical.byContradiction
+        intro hn
+        have := hw t (Or.inr hn)
+        rw [hb] at this; cases this
+
+/-- the `__update` block after a working step -/
+theorem update_rel_setP (m : Model) (q z : Live) (τ τ' : Nat) :
+    LRel m (update m τ (setP q z)) (update m τ' z) := by
+  rw [update_eq, update_eq, upd0_setP]
+  exact ⟨Ahead.refl m _, rfl, rfl, rfl, rfl, rfl, rfl, rfl, rfl, fun _ _ => rfl, fun _ _ => rfl⟩
+
+/-- the rows of a working step are the same -/
+theorem addRow_setP (m : Model) (wk : Bool) (q l4 l5 : Live) (g : Logs) :
+    addRow m wk (setP q l4) (setP q l5) g = addRow m wk l4 l5 g := rfl
+
 end Removal
 end PDesy
